@@ -850,3 +850,89 @@ Section WholeMap.
       + exact Hj.
   Qed.
 End WholeMap.
+
+(** ** statements directly about the generated genHInfo (any field, any rounding of the coordinates, any split) *)
+Section GeneratedFacts.
+  Variable K : Fld.
+  Variable rd : K -> K.
+  Variable ipart : K -> Z.
+  Variable fpart : K -> K.
+  Local Open Scope F_scope.
+  Local Open Scope Z_scope.
+  Let idK : K -> K := fun x => x.
+
+  Variables (xs ys it : Z) (cos_dt sin_dt : K) (at0 at1 : Z -> K) (d0 d1 z0 z1 : K) (x0 y0 : Z) (old : Z -> Z * K).
+  Let c1 := gen_rot_c1 K rd cos_dt sin_dt at0 at1 d0 d1 z0 z1 x0 y0.
+  Let c2 := gen_rot_c2 K rd cos_dt sin_dt at0 at1 d0 d1 z0 z1 x0 y0.
+  Let x1 := rx_f2u (ipart c1).
+  Let y1 := rx_f2u (ipart c2).
+
+  Lemma rg_generated_row_weights (rw : K -> K) k : valid_it it -> 0 <= k < it * it -> (x1 <? xs) && (y1 <? ys) = true ->
+    gen_rot_genHInfo K rd rw ipart fpart xs ys it (it * it) cos_dt sin_dt at0 at1 d0 d1 z0 z1 x0 y0 old k =
+    rg_entry K rw xs ys it x1 y1 (fpart c1) (fpart c2) (k / it) (k mod it).
+  Proof.
+    intros Hv Hk Hg. rewrite (rg_genHInfo_row K rd rw ipart fpart) by assumption.
+    unfold rg_row. fold c1 c2. fold x1 y1. rewrite Hg. reflexivity.
+  Qed.
+
+  Lemma rg_map_row (rw : K -> K) {B} (f : Z * K -> B) : valid_it it -> (x1 <? xs) && (y1 <? ys) = true ->
+    map (fun k => f (gen_rot_genHInfo K rd rw ipart fpart xs ys it (it * it) cos_dt sin_dt at0 at1 d0 d1 z0 z1 x0 y0 old k)) (zrange (it * it)) =
+    map (fun k => f (rg_entry K rw xs ys it x1 y1 (fpart c1) (fpart c2) (k / it) (k mod it))) (zrange (it * it)).
+  Proof.
+    intros Hv Hg. apply map_ext_in. intros k Hk. apply rg_in_zrange in Hk. rewrite rg_generated_row_weights by assumption. reflexivity.
+  Qed.
+
+  (** the weights genHInfo writes for a grid point whose stencil lies inside the grid sum to one *)
+  Theorem rg_generated_weights_unity : valid_it it -> (x1 <? xs) && (y1 <? ys) = true -> rg_interior xs ys it x1 y1 ->
+    fsum (map (fun k => snd (gen_rot_genHInfo K rd idK ipart fpart xs ys it (it * it) cos_dt sin_dt at0 at1 d0 d1 z0 z1 x0 y0 old k))
+              (zrange (it * it))) = 1%F.
+  Proof.
+    intros Hv Hg Hin. rewrite (rg_map_row idK snd Hv Hg). apply rg_weights_unity; assumption.
+  Qed.
+
+  (** ... and reproduce every monomial x^k y^l, k, l below the order: slot i1*it+j1 (source cell (x1+i1-c, y1+j1-c))
+      carries the x-weight i1 times the y-weight j1 *)
+  Theorem rg_generated_poly_reproduction (k l : nat) (X Y : K) :
+    valid_it it -> (x1 <? xs) && (y1 <? ys) = true -> rg_interior xs ys it x1 y1 -> Z.of_nat k < it -> Z.of_nat l < it ->
+    fdot (map (fun s => snd (gen_rot_genHInfo K rd idK ipart fpart xs ys it (it * it) cos_dt sin_dt at0 at1 d0 d1 z0 z1 x0 y0 old s))
+              (zrange (it * it)))
+         (tensor (nodes K it X k) (nodes K it Y l)) = (fpow (X + fpart c1) k * fpow (Y + fpart c2) l)%F.
+  Proof.
+    intros Hv Hg Hin Hk Hl. rewrite (rg_map_row idK snd Hv Hg). apply rg_poly_reproduction; assumption.
+  Qed.
+
+  (** every index genHInfo writes addresses the xs*ys grid *)
+  Theorem rg_generated_in_bounds (rw : K -> K) k : valid_it it -> 0 < xs -> 0 < ys -> 0 <= k < it * it ->
+    0 <= fst (gen_rot_genHInfo K rd rw ipart fpart xs ys it (it * it) cos_dt sin_dt at0 at1 d0 d1 z0 z1 x0 y0 old k) < xs * ys.
+  Proof.
+    intros Hv Hx Hy Hk. rewrite (rg_genHInfo_row K rd rw ipart fpart) by assumption. unfold rg_row.
+    destruct ((rx_f2u (ipart (gen_rot_c1 K rd cos_dt sin_dt at0 at1 d0 d1 z0 z1 x0 y0)) <? xs) &&
+              (rx_f2u (ipart (gen_rot_c2 K rd cos_dt sin_dt at0 at1 d0 d1 z0 z1 x0 y0)) <? ys)).
+    - apply rg_entry_in_bounds; assumption.
+    - cbn [fst]. split; [lia|apply Z.mul_pos_pos; assumption].
+  Qed.
+End GeneratedFacts.
+
+(** the local arrays of genHInfo are used inside their allocations (it = 1..4, _ip = it*it) *)
+Lemma rg_Forall_bool {A} (P : A -> Prop) (b : A -> bool) l : (forall x, b x = true -> P x) -> forallb b l = true -> Forall P l.
+Proof.
+  intros Hb H. apply Forall_forall. intros x Hx. apply Hb. rewrite forallb_forall in H. apply H. exact Hx.
+Qed.
+
+Theorem rg_locals_in_bounds it : valid_it it ->
+  Forall (fun e => 0 <= fst e < gen_rot_smc_size it (it * it)) (gen_rot_smc_slots it (it * it)) /\
+  Forall (fun e => snd e <= fst e) (gen_rot_coeff_sizes it (it * it)) /\
+  Forall (fun i => 0 <= gen_rot_ph_row it (it * it) i /\ gen_rot_ph_row it (it * it) i + it <= snd (gen_rot_ph_sizes it (it * it)))
+         (gen_rot_ph_rows it (it * it)) /\
+  Z.of_nat (length (gen_rot_ph_rows it (it * it))) <= fst (gen_rot_ph_sizes it (it * it)).
+Proof.
+  intros Hv. split; [|split; [|split]].
+  - apply (rg_Forall_bool _ (fun e => (0 <=? fst e) && (fst e <? gen_rot_smc_size it (it * it)))); [intros x Hx; lia|].
+    destruct Hv as [H|[H|[H|H]]]; subst it; vm_compute; reflexivity.
+  - apply (rg_Forall_bool _ (fun e => snd e <=? fst e)); [intros x Hx; lia|].
+    destruct Hv as [H|[H|[H|H]]]; subst it; vm_compute; reflexivity.
+  - apply (rg_Forall_bool _ (fun i => (0 <=? gen_rot_ph_row it (it * it) i) &&
+                                      (gen_rot_ph_row it (it * it) i + it <=? snd (gen_rot_ph_sizes it (it * it))))); [intros x Hx; lia|].
+    destruct Hv as [H|[H|[H|H]]]; subst it; vm_compute; reflexivity.
+  - destruct Hv as [H|[H|[H|H]]]; subst it; vm_compute; intro; discriminate.
+Qed.
